@@ -418,16 +418,22 @@ func runOne(w *cl.World, c *Case, base string) (*Result, error) {
 			sub.Unsubscribe()
 			pending = map[int]map[int]bool{}
 			restarts++
-			ndir := fmt.Sprintf("%s_r%d", dir, restarts)
-			if err := copyDir(curDir, ndir); err != nil {
-				return nil, err
+			// the old node's LevelDB may compact in the background while the directory is copied: retry
+			var err error
+			for attempt := 0; attempt < 8; attempt++ {
+				ndir := fmt.Sprintf("%s_r%d_%d", dir, restarts, attempt)
+				if err = copyDir(curDir, ndir); err == nil {
+					n, err = openNode(ndir)
+				}
+				if err == nil {
+					curDir = ndir
+					break
+				}
+				os.RemoveAll(ndir)
+				time.Sleep(25 * time.Millisecond)
 			}
-			curDir = ndir
-			n, err = cl.NewNode(curDir)
 			if err != nil {
-				st := Step{Err: true, ErrText: "restart: " + err.Error()}
-				res.Steps = append(res.Steps, st)
-				return res, nil
+				return nil, fmt.Errorf("restart: %v", err)
 			}
 			if err := subscribe(); err != nil {
 				return nil, err
@@ -449,6 +455,16 @@ func (r *runner) storedSet(n *cl.Node) map[int]bool {
 		}
 	}
 	return m
+}
+
+// openNode opens a node and turns a panic of the database layer (inconsistent copy) into an error.
+func openNode(dir string) (n *cl.Node, err error) {
+	defer func() {
+		if r := recover(); r != nil {
+			n, err = nil, fmt.Errorf("open: %v", r)
+		}
+	}()
+	return cl.NewNode(dir)
 }
 
 func copyDir(from, to string) error {
